@@ -559,10 +559,7 @@ func checkKeepLexical(c *Case, out string) (sig, obs, exp string, skips []string
 				if !ok || !a.hasVal || a.val == "" {
 					continue
 				}
-				if ia.quoted && !a.quoted && c.Registry == "real" && !allowKnown && strings.HasPrefix(a.name, "on") {
-					skips = append(skips, "c16-keepquotes:N08-event-attr-with-real-js-minifier-exempted")
-					continue
-				}
+				// (N08: event-handler attributes under the real JS minifier used to be exempted here; repaired in /repo)
 				if ia.quoted && !a.quoted {
 					return "keep-quotes:quotes-removed:" + attrClass(a.name), a.name + "=" + a.val, a.name + "=\"…\" (quoted as in the input)", skips
 				}
